@@ -10,8 +10,9 @@ implementation.
 
 Time is an integer in any unit; there is no bound on expiry times, TTLs, clock values or on the length of a
 history. A *history* is any list of requests `⟨dt, key, up⟩`: `dt` time units after the previous request a request
-for cache entry `key` arrives, and the remote party would answer it with `up` (for the mechanisms: the absolute
-expiry it reports, `none` = no expiry information; for the HTTP cache: the whole exchange).
+for cache entry `key` arrives, and the remote party would answer it with `up` (for the mechanisms: the an `Answer`:
+the absolute expiry it reports, `none` = no expiry information, plus — for a JWK — the `NotAfter` of the further
+certificates of its `x5c` chain; for the HTTP cache: the whole exchange).
 -/
 namespace Heimdall.Props.C10
 open Heimdall.Validity
@@ -55,11 +56,11 @@ example : (1 : Nat) ≠ 2 := by decide
 mechanism, every configuration and every remaining lifetime (far, inside the leeway, zero, negative). `remaining`
 is the lifetime the mechanism knows of: `exp − now` as reported by the remote party, the `ttl` of the JWT finalizer
 for the tokens it issues itself, nothing for the remote authorizer and the contextualizer. -/
-theorem c10_ttl_le_remaining (m : Mech) (cfg : Option Int) (now : Int) (exp : Option Int) (r : Int)
+theorem c10_ttl_le_remaining (m : Mech) (cfg : Option Int) (now : Int) (exp : Answer) (r : Int)
     (hr : remaining m cfg now exp = some r) : cacheTTL m cfg (some r) ≤ max 0 (r - m.leeway) :=
   cacheTTL_le_remaining m cfg now exp r hr
 
-example : remaining .introspection (some 300) 1000 (some 1005) = some 5 := by decide
+example : remaining .introspection (some 300) 1000 ⟨some 1005, []⟩ = some 5 := by decide
 example : cacheTTL .introspection (some 300) (some 0) = 0 := by decide
 example : cacheTTL .jwtKey (some 40) (some 1000000) = 40 := by decide
 
@@ -78,8 +79,8 @@ override of a prototype that has caching enabled: over any history the cache is 
 the remote party: no outcome is a hit), never written (no outcome carries a stored TTL) and the store stays as it
 was. -/
 theorem c10_nonpositive_ttl_disables (m : Mech) (hm : m ≠ .jwtFinalizer) (proto : Option Int) (c : Int)
-    (hc : c ≤ 0) (vl : Nat) (k : StoreKind) (s : Store (Item (Option Int))) (now : Int) (idx : Nat)
-    (reqs : List (Req (Option Int))) :
+    (hc : c ≤ 0) (vl : Nat) (k : StoreKind) (s : Store (Item Answer)) (now : Int) (idx : Nat)
+    (reqs : List (Req Answer)) :
     let p := mechPolicy m (effective proto (some c)) vl
     p.lookup = false ∧ runStore p k s now idx reqs = s ∧
       ∀ t o, (t, o) ∈ run p k s now idx reqs → o = .denied ∨ ∃ it, o = .fresh it none := by
@@ -98,47 +99,73 @@ answered from the cache at time `t` with the cached result `it`, that reuse is p
 (`mayReuse`): an authentication result only while `t < exp + leeway`, a verification key only while
 `t ≤ NotAfter`, a token only while `t < exp`. -/
 theorem c10_reuse_within_validity (m : Mech) (proto ovr : Option Int) (vl : Nat) (k : StoreKind)
-    (reqs : List (Req (Option Int))) (now : Int) (t : Int) (it : Item (Option Int))
+    (reqs : List (Req Answer)) (now : Int) (t : Int) (it : Item Answer)
     (h : (t, Outcome.hit it) ∈ run (mechPolicy m (effective proto ovr) vl) k [] now 0 reqs) :
     mayReuse m (effective proto ovr) vl it t = true :=
   run_hits (mech_sound m (effective proto ovr) vl) k reqs [] now 0 (inv_nil _) t it h
 
 /- a hit does happen: a token good for a long time, cached at 0 for the configured 300 s, is reused at 15 -/
-example : (15, Outcome.hit ⟨some 1000000, 0, 0⟩) ∈
+example : (15, Outcome.hit ⟨⟨some 1000000, []⟩, 0, 0⟩) ∈
     run (mechPolicy .introspection (effective (some 300) none) 0) .memory [] 0 0
-      [⟨0, 1, some 1000000⟩, ⟨15, 1, some 200⟩] := by decide
+      [⟨0, 1, ⟨some 1000000, []⟩⟩, ⟨15, 1, ⟨some 200, []⟩⟩] := by decide
 
 /-- An authentication result (introspection response, session) is not accepted from the cache at or after the
 credential's expiry plus the validity leeway. -/
 theorem c10_authn_not_accepted_after_expiry (m : Mech) (hm : m = .introspection ∨ m = .generic)
-    (proto ovr : Option Int) (vl : Nat) (k : StoreKind) (reqs : List (Req (Option Int))) (now t e : Int)
-    (it : Item (Option Int)) (he : it.ans = some e)
+    (proto ovr : Option Int) (vl : Nat) (k : StoreKind) (reqs : List (Req Answer)) (now t e : Int)
+    (it : Item Answer) (he : it.ans.exp = some e)
     (h : (t, Outcome.hit it) ∈ run (mechPolicy m (effective proto ovr) vl) k [] now 0 reqs) :
     t < e + validityLeeway m vl := by
   have := c10_reuse_within_validity m proto ovr vl k reqs now t it h
   rcases hm with hm | hm <;> subst hm <;> simpa [mayReuse, he] using this
 
-example : (20, Outcome.hit ⟨some 1000000, 0, 0⟩) ∈
+example : (20, Outcome.hit ⟨⟨some 1000000, []⟩, 0, 0⟩) ∈
     run (mechPolicy .generic (effective none (some 60)) 5) .redis [] 0 0
-      [⟨0, 3, some 1000000⟩, ⟨20, 3, some 2000⟩] := by decide
+      [⟨0, 3, ⟨some 1000000, []⟩⟩, ⟨20, 3, ⟨some 2000, []⟩⟩] := by decide
 
-/-- A cached verification key is not used after `NotAfter` of its certificate. -/
+/-- A cached verification key is not used after `NotAfter` of its certificate — its own certificate, the first
+element of the `x5c` chain (`it.ans.exp`); the rest of the chain (`it.ans.more`, any length, any expiry) is
+irrelevant for this bound. -/
 theorem c10_key_not_used_after_cert_expiry (proto ovr : Option Int) (vl : Nat) (k : StoreKind)
-    (reqs : List (Req (Option Int))) (now t e : Int) (it : Item (Option Int)) (he : it.ans = some e)
+    (reqs : List (Req Answer)) (now t e : Int) (it : Item Answer) (he : it.ans.exp = some e)
     (h : (t, Outcome.hit it) ∈ run (mechPolicy .jwtKey (effective proto ovr) vl) k [] now 0 reqs) :
     t ≤ e := by
   simpa [mayReuse, he] using c10_reuse_within_validity .jwtKey proto ovr vl k reqs now t it h
 
-example : (590, Outcome.hit ⟨some 1000000, 0, 0⟩) ∈
+example : (590, Outcome.hit ⟨⟨some 1000000, []⟩, 0, 0⟩) ∈
     run (mechPolicy .jwtKey (effective (some 600) none) 0) .memory [] 0 0
-      [⟨0, 0, some 1000000⟩, ⟨590, 0, some 9000⟩] := by decide
+      [⟨0, 0, ⟨some 1000000, []⟩⟩, ⟨590, 0, ⟨some 9000, []⟩⟩] := by decide
+
+/-- **Only the key's own certificate bounds the TTL of a JWK, for `x5c` chains of any length.** Whatever further
+certificates the chain contains (issuing CAs that expire later, earlier, or long ago), the TTL handed to the cache is
+at most what is left of the key's own certificate `x5c[0]` minus the leeway. A later `NotAfter` further down the
+chain never extends it. -/
+theorem c10_key_ttl_le_own_certificate (cfg : Option Int) (now e : Int) (more : List Int) :
+    cacheTTL .jwtKey cfg (remaining .jwtKey cfg now ⟨some e, more⟩) ≤ max 0 (e - now - Mech.jwtKey.leeway) := by
+  have hr : remaining .jwtKey cfg now ⟨some e, more⟩ = some (e - now) := by simp [remaining]
+  rw [hr]
+  exact cacheTTL_le_remaining .jwtKey cfg now ⟨some e, more⟩ (e - now) hr
+
+/- own certificate good for 70 s, intermediate and root CA for much longer: 30 min configured, far less granted;
+   the same chain is accepted as fresh (all of it is valid) -/
+example : cacheTTL .jwtKey (some 1800) (remaining .jwtKey (some 1800) 1000 ⟨some 1070, [90000, 900000]⟩) ≤ 70 := by
+  decide
+example : (mechPolicy .jwtKey (some 1800) 0).accept 1000 ⟨some 1070, [90000, 900000]⟩ = true := by decide
+/- a key whose chain outlives its own certificate: reused before the certificate expires, fetched again after -/
+example : (40, Outcome.hit ⟨⟨some 70, [90000]⟩, 0, 0⟩) ∈
+      run (mechPolicy .jwtKey (effective (some 1800) none) 0) .memory [] 0 0
+        [⟨0, 0, ⟨some 70, [90000]⟩⟩, ⟨40, 0, ⟨some 5000, [90000]⟩⟩, ⟨40, 0, ⟨some 5000, [90000]⟩⟩]
+    ∧ (80, Outcome.hit ⟨⟨some 70, [90000]⟩, 0, 0⟩) ∉
+      run (mechPolicy .jwtKey (effective (some 1800) none) 0) .memory [] 0 0
+        [⟨0, 0, ⟨some 70, [90000]⟩⟩, ⟨40, 0, ⟨some 5000, [90000]⟩⟩, ⟨40, 0, ⟨some 5000, [90000]⟩⟩] := by
+  decide
 
 /-- A token obtained (client credentials) or issued (JWT finalizer) by a finalizer is never handed out from the
 cache when it is already expired. -/
 theorem c10_token_not_handed_out_expired (proto ovr : Option Int) (vl : Nat) (k : StoreKind)
-    (reqs : List (Req (Option Int))) (now t : Int) (it : Item (Option Int)) :
+    (reqs : List (Req Answer)) (now t : Int) (it : Item Answer) :
     ((t, Outcome.hit it) ∈ run (mechPolicy .clientCreds (effective proto ovr) vl) k [] now 0 reqs →
-      ∀ e, it.ans = some e → t < e) ∧
+      ∀ e, it.ans.exp = some e → t < e) ∧
     ((t, Outcome.hit it) ∈ run (mechPolicy .jwtFinalizer (effective proto ovr) vl) k [] now 0 reqs →
       t < it.time + tokenLifetime (effective proto ovr)) := by
   constructor
@@ -147,18 +174,18 @@ theorem c10_token_not_handed_out_expired (proto ovr : Option Int) (vl : Nat) (k 
   · intro h
     simpa [mayReuse] using c10_reuse_within_validity .jwtFinalizer proto ovr vl k reqs now t it h
 
-example : (1, Outcome.hit ⟨none, 0, 0⟩) ∈
+example : (1, Outcome.hit ⟨⟨none, []⟩, 0, 0⟩) ∈
     run (mechPolicy .jwtFinalizer (effective (some 3600) none) 0) .memory [] 0 0
-      [⟨0, 0, none⟩, ⟨1, 0, none⟩] := by decide
-example : (50, Outcome.hit ⟨some 1000000, 0, 0⟩) ∈
+      [⟨0, 0, ⟨none, []⟩⟩, ⟨1, 0, ⟨none, []⟩⟩] := by decide
+example : (50, Outcome.hit ⟨⟨some 1000000, []⟩, 0, 0⟩) ∈
     run (mechPolicy .clientCreds (effective (some 50) none) 0) .memory [] 0 0
-      [⟨0, 0, some 1000000⟩, ⟨50, 0, none⟩] := by decide
+      [⟨0, 0, ⟨some 1000000, []⟩⟩, ⟨50, 0, ⟨none, []⟩⟩] := by decide
 
 /-- **The cache leeway survives any history:** a cached result with a known expiry `e` is reused no later than
 `e` minus the mechanism's leeway constant (10 s for authentication results and keys, 5 s for tokens). -/
 theorem c10_reuse_keeps_leeway (m : Mech) (hm : m ≠ .jwtFinalizer) (proto ovr : Option Int) (vl : Nat)
-    (k : StoreKind) (reqs : List (Req (Option Int))) (now t e : Int) (it : Item (Option Int))
-    (he : it.ans = some e) (hm' : m ≠ .remoteAuthz ∧ m ≠ .contextualizer)
+    (k : StoreKind) (reqs : List (Req Answer)) (now t e : Int) (it : Item Answer)
+    (he : it.ans.exp = some e) (hm' : m ≠ .remoteAuthz ∧ m ≠ .contextualizer)
     (h : (t, Outcome.hit it) ∈ run (mechPolicy m (effective proto ovr) vl) k [] now 0 reqs) :
     t + m.leeway ≤ e := by
   have := run_hits (margin_sound m hm hm' (effective proto ovr) vl) k reqs [] now 0 (inv_nil _) t it h
@@ -166,9 +193,9 @@ theorem c10_reuse_keeps_leeway (m : Mech) (hm : m ≠ .jwtFinalizer) (proto ovr 
 
 example : Mech.clientCreds ≠ .jwtFinalizer ∧ Mech.clientCreds ≠ .remoteAuthz ∧ Mech.clientCreds ≠ .contextualizer := by
   decide
-example : (50, Outcome.hit ⟨some 1000000, 1, 0⟩) ∈
+example : (50, Outcome.hit ⟨⟨some 1000000, []⟩, 1, 0⟩) ∈
     run (mechPolicy .clientCreds (effective none (some 50)) 0) .redis [] 1 0
-      [⟨0, 0, some 1000000⟩, ⟨49, 0, some 300⟩] := by decide
+      [⟨0, 0, ⟨some 1000000, []⟩⟩, ⟨49, 0, ⟨some 300, []⟩⟩] := by decide
 
 /-- **Instances that share the cache.** Rules can override `cache_ttl` and the validity leeway of one and the same
 authenticator / client-credentials mechanism; the resulting instances read and write the same cache entries (the
@@ -177,7 +204,7 @@ settings `(cache_ttl, validity leeway)`: whatever is served from the cache keeps
 is permitted from the point of view of *every* instance, in particular of the one that serves it. -/
 theorem c10_shared_entries_reuse_within_validity (m : Mech) (hm : m ≠ .jwtFinalizer)
     (hm' : m ≠ .remoteAuthz ∧ m ≠ .contextualizer) (k : StoreKind)
-    (reqs : List ((Option Int × Nat) × Req (Option Int))) (now t : Int) (it : Item (Option Int))
+    (reqs : List ((Option Int × Nat) × Req Answer)) (now t : Int) (it : Item Answer)
     (h : (t, Outcome.hit it) ∈
       runMixed k [] now 0 (reqs.map (fun cr => (mechPolicy m cr.1.1 cr.1.2, cr.2)))) :
     withinMargin m it t = true ∧ ∀ cfg vl, mayReuse m cfg vl it t = true := by
@@ -189,9 +216,9 @@ theorem c10_shared_entries_reuse_within_validity (m : Mech) (hm : m ≠ .jwtFina
   exact ⟨hw, fun cfg vl => mayReuse_of_withinMargin m hm cfg vl it t hw⟩
 
 /- a rule with `cache_ttl: 1h` stores, a rule with `cache_ttl: 5s` and a tight validity leeway reuses the entry -/
-example : (100, Outcome.hit ⟨some 1000000, 0, 0⟩) ∈
-    runMixed .memory [] 0 0 ([((some 3600, 0), ⟨0, 0, some 1000000⟩), ((some 5, 1), ⟨100, 0, some 1000000⟩)].map
-      (fun (cr : (Option Int × Nat) × Req (Option Int)) => (mechPolicy .introspection cr.1.1 cr.1.2, cr.2))) := by
+example : (100, Outcome.hit ⟨⟨some 1000000, []⟩, 0, 0⟩) ∈
+    runMixed .memory [] 0 0 ([((some 3600, 0), ⟨0, 0, ⟨some 1000000, []⟩⟩), ((some 5, 1), ⟨100, 0, ⟨some 1000000, []⟩⟩)].map
+      (fun (cr : (Option Int × Nat) × Req Answer) => (mechPolicy .introspection cr.1.1 cr.1.2, cr.2))) := by
   decide
 
 /-! ## HTTP responses of remote endpoints -/
